@@ -56,7 +56,8 @@ def containsAny (s : Bytes) (cs : List UInt8) : Bool := s.any cs.contains
 
 /-- `node.NewType`. -/
 def validType (t : Bytes) : Bool :=
-  !containsAny t [32, 9, 10, 13] && t.head? == some slash && t.getLast? != some slash && !t.isEmpty
+  !containsAny t [32, 9, 10, 13] && t.head? == some slash && t.getLast? != some slash && !t.isEmpty &&
+  !containsAny t [lt, gt]
 /-- `node.NewID`. -/
 def validID (i : Bytes) : Bool := !containsAny i [lt, gt] && !i.isEmpty
 
